@@ -168,3 +168,13 @@ func VerifC18_FinalizingBatchReleaseWaits() {
 		verifrt.Assert(!exists || (br.Spec.ReleasePlan.BatchPartition == nil && br.Status.Phase == v1beta1.RolloutPhaseCompleted), "C18.rollout.resumeDoneOnlyWhenBatchReleaseCompleted")
 	}
 }
+
+// A Rollout deleted while another clean-up (rollback, completion) is half-way: the Terminating condition reaches
+// Completed — the licence to drop the finalizer — only after every restoring task has run, whatever cursor the earlier
+// clean-up left in the status (driven through the real Reconcile; same relation as the C05 harness of that name).
+func VerifC18_CanaryDeletionDuringAnotherCleanupKeepsTheFinalizer() {
+	c05ExitViaReconcile(false, false, "C18.canary.deletionDuringAnotherCleanup")
+}
+func VerifC18_BlueGreenDeletionDuringAnotherCleanupKeepsTheFinalizer() {
+	c05ExitViaReconcile(true, false, "C18.bluegreen.deletionDuringAnotherCleanup")
+}
